@@ -139,6 +139,9 @@ func renderOne(input []byte, cfgs [][]int) (t *renderTrace, pm string) {
 		if err := r.Render(&buf, blocks); err != nil {
 			panic("render error: " + err.Error())
 		}
+		// between the two calls user code runs a Walk of its own on another tree and ends it early:
+		// rendering must not depend on anything such a call leaves behind
+		interferenceWalk()
 		if err := r.Render(&buf2, blocks); err != nil {
 			panic("render error: " + err.Error())
 		}
@@ -153,6 +156,21 @@ func renderOne(input []byte, cfgs [][]int) (t *renderTrace, pm string) {
 		t.Runs = append(t.Runs, run)
 	}
 	return t, ""
+}
+
+var interferenceTree []*commonmark.RootBlock
+
+func interferenceWalk() {
+	if interferenceTree == nil {
+		interferenceTree, _ = commonmark.Parse([]byte("- one *two*\n- [three](/four)\n\n  > five `six`\n"))
+	}
+	n := 0
+	for _, b := range interferenceTree {
+		commonmark.Walk(b.AsNode(), &commonmark.WalkOptions{Post: func(c *commonmark.Cursor) bool {
+			n++
+			return n < 3 // stop the traversal while frames are still pending
+		}})
+	}
 }
 
 func cmdRender(args []string) *Result {
